@@ -385,7 +385,7 @@ void property(const pbt::Tape& t, pbt::Ctx& ctx) {
 pbt::Config config() {
     pbt::Config c; c.prop = "C35"; c.K = 32; c.minUnits = 1; c.maxShrinkSecs = 25;
     c.quick = {1500, 8000, 12, 25}; c.thorough = {10000, 80000, 16, 150};
-    c.rule = "tape -> shape pair {halfspace/sphere, sphere/sphere, halfspace/ellipsoid, halfspace/brick, halfspace/mesh, sphere/mesh, mesh/mesh, sphere/ellipsoid, ellipsoid/ellipsoid} with sizes 0.05..20 (aspect <= 20, implicit pairs <= 4; meshes 4..128 faces with radial noise) and a list of configurations: ground pose of shape 1, relative rotation, approach direction, signed gap +-1e-9..0.5 sizes (log-uniform), 0 or far, optional cutoff. Non-trivial: |exact gap| < 10% of the smaller size with a non-identity relative rotation, or a mesh pair with some but not all faces inside.";
+    c.rule = "1 case in 48: deep mesh/mesh contact of a 2048-face nonuniformly scaled sphere mesh (5..85 % of its thickness) with a coarser mesh, both roles; otherwise: tape -> shape pair {halfspace/sphere, sphere/sphere, halfspace/ellipsoid, halfspace/brick, halfspace/mesh, sphere/mesh, mesh/mesh, sphere/ellipsoid, ellipsoid/ellipsoid} with sizes 0.05..20 (aspect <= 20, implicit pairs <= 4; meshes 4..128 faces with radial noise) and a list of configurations: ground pose of shape 1, relative rotation, approach direction, signed gap +-1e-9..0.5 sizes (log-uniform), 0 or far, optional cutoff. Non-trivial: |exact gap| < 10% of the smaller size with a non-identity relative rotation, or a mesh pair with some but not all faces inside.";
     c.assumptions = {"ContactTracker::trackContact is called with an UntrackedContact prior (caller precondition)", "mesh pairs require cutoff == 0 (asserted by the trackers)", "implicit pairs: aspect ratio <= 4, depth/normal tolerance 1e-6 (Newton refinement to SignificantReal)", "existence is not judged inside a band of 1e-9 sizes (closed forms) / 1e-6 sizes (implicit pairs) around touching"};
     c.directed.push_back({"obb-boxes-sharing-an-axis", "obb-intersectsbox-parallel-axes", [](pbt::Ctx& ctx) {
         // two cubes of side 2.00004 whose frames share the z axis up to rounding noise (R(1,2) = 2.8e-17), centres 1.73 apart: they overlap
